@@ -156,6 +156,16 @@ fn run(c: &NameCase, obs: &mut Obs) -> Result<(), Failure> {
             let b = mk(&c2, &name)?;
             let b2 = mk(&c2, b"second")?;
             for (who, cf, p, s, want_names) in [("1", &c1, &p1, &s1, vec![name.clone()]), ("2", &c2, &p2, &s2, vec![name.clone(), b"second".to_vec()])] {
+                // a foreign file that carries this configuration's prefix but whose remainder is not a legal
+                // file name (e.g. prefix 'iox2_-' and the other configuration's storage '-': 'iox2_-.service'
+                // has an empty name here) runs into the fatal panic of extract_name_from_file ("leads to
+                // invalid content") that the pure-function part above excludes as well
+                let foreign: Vec<Vec<u8>> = if who == "1" { vec![name.clone(), b"second".to_vec()] } else { vec![name.clone()] };
+                let (fp, fs) = if who == "1" { (&p2, &s2) } else { (&p1, &s1) };
+                if foreign.iter().any(|on| reference_extract(p.as_bytes(), s.as_bytes(), &[fp.as_bytes(), on, fs.as_bytes()].concat()).is_err()) {
+                    obs.class("naming.on_disk_listing_excluded_documented_panic");
+                    continue;
+                }
                 let mut got: Vec<Vec<u8>> = Storage::list_cfg(cf).map_err(|e| Failure::new("naming.on_disk", format!("list_cfg: {e:?}")))?.iter().map(|f| f.as_bytes().to_vec()).collect();
                 got.sort();
                 let mut want = want_names.clone();
